@@ -36,7 +36,16 @@ import numpy as np
 from vlib import common
 from harness import nf_emulator
 
-NAMED_RE = re.compile(r"Consider deleting this directory to continue simulation: (.*)$")
+
+def named_dir(msg, outdir):
+    """the directory an error message of the script NAMES (a path below the output directory occurring in the message,
+    whatever the wording); the recovery step removes exactly that"""
+    best = None
+    for m in re.finditer(re.escape(outdir.rstrip(os.sep)) + r"(?:/[^\s'\"`]*)?", msg):
+        cand = m.group(0).rstrip(".,;:)]}>/")
+        if cand != outdir.rstrip(os.sep) and os.path.isdir(cand) and (best is None or len(cand) > len(best)):
+            best = cand
+    return best
 STEP_RE = re.compile(r"iter_(\d+)/plate_(\d+)")
 
 
@@ -143,15 +152,25 @@ class FsPatch:
         return False
 
 
-def load_script():
+def load_script(verbose=False):
     import importlib.util
     p = os.path.join(common.REPO, "nextflow", "scripts", "batchie.py")
     spec = importlib.util.spec_from_file_location("batchie_orchestration_script_c19_system", p)
     mod = importlib.util.module_from_spec(spec)
     spec.loader.exec_module(mod)
-    mod.logger.disabled = True
     for h in list(mod.logger.handlers):
         mod.logger.removeHandler(h)
+    if verbose:
+        import logging
+
+        class Sink(logging.Handler):
+            def emit(self, record):
+                self.format(record)
+        mod.logger.setLevel(logging.DEBUG)
+        mod.logger.handlers = [Sink(level=logging.DEBUG)]
+        mod.logger.propagate = False
+    else:
+        mod.logger.disabled = True
     return mod
 
 
@@ -209,11 +228,23 @@ class Sim:
             self.in_pipeline = False
 
     def go(self):
-        with FsPatch(self):
-            return self._go()
+        if not self.cfg.get("verbose"):
+            with FsPatch(self):
+                return self._go()
+        # verbose slice: the script's logger formats every record, the `batchie` logger is at DEBUG, every CLI main gets --verbose
+        nf_emulator.VERBOSE[0] = True
+        try:
+            with common.verbose_logging(), FsPatch(self):
+                return self._go()
+        finally:
+            nf_emulator.VERBOSE[0] = False
+            import logging
+            lg = logging.getLogger("batchie_orchestration_script_c19_system")
+            lg.disabled = True
+            lg.handlers = []
 
     def _go(self):
-        mod = load_script()
+        mod = load_script(verbose=bool(self.cfg.get("verbose")))
         # the only thing replaced inside the script module: the process launcher (nextflow is not installed)
         mod.subprocess = types.SimpleNamespace(check_call=self.pipeline)
         B = self.cfg["B"]
@@ -248,8 +279,8 @@ class Sim:
             except Runaway:
                 outcome = "no-termination"
             except RuntimeError as e:
-                m = NAMED_RE.search(str(e))
-                outcome = ("named", m.group(1)) if m else "failed:RuntimeError:" + str(e)[:200]
+                nd = named_dir(str(e), self.outdir)
+                outcome = ("named", nd) if nd else "failed:RuntimeError:" + str(e)[:200]
             except Exception as e:  # noqa
                 outcome = "failed:%s:%s" % (type(e).__name__, str(e)[:200])
             finally:
@@ -475,31 +506,46 @@ def pick_points(labels, B, rng, k):
     return want[:k]
 
 
+TOOL_OF = {"PREPARE": "prepare_retrospective_simulation", "TRAIN_MODEL": "train_model", "EVALUATE_MODEL": "evaluate_model",
+           "ANALYZE": "analyze_model_evaluation", "CALCULATE_DISTANCE": "calculate_distance_matrix", "CALCULATE_SCORE": "calculate_scores",
+           "SELECT_NEXT_PLATE": "select_next_plate", "REVEAL_PLATE": "reveal_plate", "EXTRACT_SCREEN_METADATA": "extract_screen_metadata"}
+
+
 def explore(cfg, n_single, n_double, rng, workdir):
     """-> list of result dicts for one simulation (uninterrupted via main(), then interrupted runs)"""
     results = []
     ref = Sim(cfg, [], workdir, use_main=True).go()
     fref, sref = judge(ref)
     labels = list(ref.labels)
+    tools = {}
+    for r in ref.emu.launches:
+        for t in r["ran"]:
+            tool = next(v for k, v in TOOL_OF.items() if t.startswith(k))
+            tools[tool] = tools.get(tool, 0) + 1
     results.append({"case": {"system": cfg, "crashes": []}, "findings": fref, "summary": {k: v for k, v in sref.items() if k != "final"},
-                    "actions": len(labels), "classes": ["system.uninterrupted-main"]})
+                    "actions": len(labels), "classes": ["system.uninterrupted-main", "entry-point.script-main"], "tools": tools})
     if ref.status == "ok":
         pts = pick_points(labels, cfg["B"], rng, n_single)
         cases = [[p] for p in pts]
         for _ in range(n_double):
             a = rng.choice(pts)
             cases.append([a, rng.randrange(0, max(1, len(labels) - a))])
-        for crashes in cases:
-            run = Sim(cfg, crashes, workdir).go()
+        for ci, crashes in enumerate(cases):
+            # verbose slice: the last interrupted run of every simulation (script logger formatting every record, `batchie`
+            # logger at DEBUG, every CLI main called with --verbose); judged like the others and against the NON-verbose reference
+            verbose = ci == len(cases) - 1
+            rcfg = dict(cfg, verbose=True) if verbose else cfg
+            run = Sim(rcfg, crashes, workdir).go()
             f, s = judge(run)
             f = f + compare(run, ref, sref, s)
-            cl = ["system.interruptions-%d" % len(crashes)]
+            cl = ["system.interruptions-%d" % len(crashes)] + (["verbose-logging"] if verbose else [])
             if any(r["completed"] and not r["all_done"] for r in run.emu.launches):
                 cl.append("system.interrupted-after-marker-before-model-evaluation")
             if run.named:
                 cl.append("system.named-directory-removed")
             hit = labels[crashes[0]] if crashes[0] < len(labels) else "?"
-            results.append({"case": {"system": cfg, "crashes": crashes}, "findings": f, "summary": {k: v for k, v in s.items() if k != "final"},
+            results.append({"case": dict({"system": rcfg, "crashes": crashes}, **({"verbose": True} if verbose else {})), "findings": f,
+                            "summary": {k: v for k, v in s.items() if k != "final"},
                             "hit": hit, "classes": cl, "launches": len(run.emu.launches)})
             run.cleanup()
     ref.cleanup()
@@ -551,6 +597,9 @@ def run(ctx, res, workdir):
             res.nontrivial.add(("system", json.dumps(r["case"], sort_keys=True)))
             for c in r["classes"]:
                 res.count("class." + c)
+            for tool, n_calls in (r.get("tools") or {}).items():
+                for _ in range(n_calls):
+                    res.count("class.entry-point." + tool)
             if r["summary"].get("test_screen_glob"):
                 res.count("system: --test_screen is %s (get_test_screen_from_job_output globs training.screen.h5)" % r["summary"]["test_screen_glob"])
             if r["case"]["crashes"]:
@@ -563,7 +612,7 @@ def run(ctx, res, workdir):
 
 def replay(ctx, case, res, workdir):
     cfg = case["system"]
-    ref = Sim(cfg, [], workdir, use_main=True).go()
+    ref = Sim({k: v for k, v in cfg.items() if k != "verbose"}, [], workdir, use_main=True).go()
     fref, sref = judge(ref)
     findings = fref
     if case["crashes"] and ref.status == "ok":
